@@ -200,8 +200,24 @@ def falsified(text, flags, rec=None):
         baggs = [n for n in walk(stm) if n.ast_type == ASTType.BodyAggregate]
         minmax = [a for a in baggs if a.function in (AggregateFunction.Min, AggregateFunction.Max)]
         # D7: a rule with a translated #min/#max aggregate uses a template variable name
+        #     OUTSIDE of the aggregate's elements (head, guards, other body literals): only such a variable can reach the
+        #     rules the hard-wired names are used in (rest_vars / lits_with_vars).  A template name that occurs only inside
+        #     the elements is no instance of D7 (corrections log 20: the broader key hid a seeded capture of `X0`)
         if "minmax_chains" in on and minmax:
-            if any(v in TEMPLATE_VARS or re.fullmatch(r"G\d+", v) for v in variables(stm)):
+            outside = set()
+            if stm.ast_type == ASTType.Rule:
+                outside |= set(variables(stm.head))
+            else:
+                outside |= set(variables(stm.weight)) | set(variables(stm.priority)) | set(v for t in stm.terms for v in variables(t))
+            for bl in stm.body:
+                if bl.ast_type == ASTType.Literal and bl.atom.ast_type == ASTType.BodyAggregate and \
+                        bl.atom.function in (AggregateFunction.Min, AggregateFunction.Max):
+                    for g in (bl.atom.left_guard, bl.atom.right_guard):
+                        if g is not None:
+                            outside |= set(variables(g.term))
+                else:
+                    outside |= set(variables(bl))
+            if any(v in TEMPLATE_VARS or re.fullmatch(r"G\d+", v) for v in outside):
                 keys.add("Hyp_template_vars")
         # D12 / C12a: a negated #min/#max literal
         if "minmax_chains" in on:
